@@ -80,7 +80,7 @@ def check(name, props, tier):
     json.dump(meta, open(f"{d}/meta.json", "w"), indent=1)
 
 
-if __name__ == "__main__" and sys.argv[1] != "matrix":
+if __name__ == "__main__" and sys.argv[1] not in ("matrix", "reconfirm"):
     if sys.argv[1] == "verify":
         verify(*sys.argv[2:6])
     else:
@@ -136,5 +136,38 @@ def matrix(names, extra_props=None):
             sh(f"git -C /repo worktree remove --force {wt}")
 
 
+def reconfirm(names):
+    """cheap: every stored change still applies to /repo HEAD, its demo passes without it and fails with it (no test suite, no checks)"""
+    import glob
+    names = names or sorted(os.path.basename(d) for d in glob.glob(f"{SEEDED}/C*-*"))
+    wt = "/tmp/rc-seeded"
+    sh(f"git -C /repo worktree remove --force {wt}")
+    rc, o = sh(f"git -C /repo worktree add -q --detach {wt} HEAD")
+    assert rc == 0, o
+    bad = 0
+    try:
+        env = {"PYTHONPATH": wt}
+        for name in names:
+            d = f"{SEEDED}/{name}"
+            rc, o = sh(f"/venv/bin/python {d}/demo.py", cwd=wt, env=env)
+            clean_ok = rc == 0
+            rc, o = sh(f"git apply {d}/patch.diff", cwd=wt)
+            applies = rc == 0
+            fails = None
+            if applies:
+                rc, o = sh(f"/venv/bin/python {d}/demo.py", cwd=wt, env=env)
+                fails = rc != 0
+            sh("git checkout -q -- . && git clean -fdq", cwd=wt)
+            ok = clean_ok and applies and fails
+            bad += not ok
+            if not ok:
+                print(f"{name}: applies={applies} clean_demo_ok={clean_ok} demo_fails={fails}", flush=True)
+    finally:
+        sh(f"git -C /repo worktree remove --force {wt}")
+    print(f"reconfirmed {len(names) - bad} of {len(names)}")
+
+
+if __name__ == "__main__" and len(sys.argv) > 1 and sys.argv[1] == "reconfirm":
+    reconfirm(sys.argv[2:])
 if __name__ == "__main__" and len(sys.argv) > 1 and sys.argv[1] == "matrix":
     matrix(sys.argv[2:])
